@@ -1822,6 +1822,14 @@ class OMPTaskloopDirective(OMPRegionDirective):
                 "OMPTaskloopDirective must be inside an OMP Serial region "
                 "but could not find an ancestor node")
 
+        # The directive must be followed by the loop to which it applies.
+        if (len(self.dir_body.children) != 1 or
+                not isinstance(self.dir_body[0], Loop)):
+            raise GenerationError(
+                f"An OMPTaskloopDirective can only be applied to a single "
+                f"loop but this Node has the following children: "
+                f"{[type(child).__name__ for child in self.dir_body]}")
+
         # Check children are well formed.
         # _validate_child will ensure position 0 and 1 are valid.
         if len(self._children) == 3 and isinstance(self._children[1],
